@@ -37,6 +37,7 @@ from ..parser import replace
 
 # external _imports
 import importlib
+import re
 import subprocess
 import sys
 import os
@@ -54,6 +55,9 @@ __status__ = "development"
 
 # names of the extension modules that have been built (and imported) in this process
 _built_modules = set()
+
+# a real literal without kind: digits with a decimal point, optionally followed by an e-exponent
+_real_literal = re.compile(r"(?<![\w.])(\d+\.\d*|\.\d+|\d+(?=[eE][-+]?\d))(?:[eE]([-+]?\d+))?(?![\w.])")
 
 # backend classes
 #################
@@ -361,6 +365,10 @@ class FortranBackend(BaseBackend):
             old_expr = expr[start:start+stop]
             new_expr = replace(expr[start:start+stop], old_shift, new_shift)
             expr = replace(expr, old_expr, new_expr)
+
+        # real literals are of default (single precision) kind in Fortran unless they carry a kind/exponent letter:
+        # `0.1` would enter a double precision equation as 0.100000001490116
+        expr = _real_literal.sub(lambda m: f"{m.group(1)}d{m.group(2) or '0'}", expr)
 
         return expr
 
